@@ -516,7 +516,8 @@ func EVAL(ctx context.Context, ast MalType, env EnvType) (res MalType, e error) 
 				return do(ctx, tryDo, 0, 0, env)
 			}()
 
-			defer func() { _, _ = do(ctx, finallyDo, 0, 0, env) }()
+			finallyEnv := env
+			defer func() { _, _ = do(ctx, finallyDo, 0, 0, finallyEnv) }()
 
 			if e == nil {
 				return exp, nil
